@@ -61,7 +61,12 @@ def runPairLine (line : String) : List String × (TextStats → TextStats) :=
     match toks, resp.splitOn " ## " with
     | ("Y" :: id :: tag :: desc), [a, b] =>
       let d := " ".intercalate desc
-      if tag == "race" then
+      if tag.startsWith "C17" then
+        -- a command-line invocation whose exit status and output are fixed by the tool's own rules
+        (if a.trimAscii.toString != b.trimAscii.toString then
+           ([s!"V {id} cli PROP op=0 C17 {d}: expected {a.trimAscii.toString} got {b.trimAscii.toString}"], fun s => { s with cases := s.cases + 1 })
+         else ([s!"V {id} cli OK ops=1 nt=1"], fun s => { s with cases := s.cases + 1, nontrivial := s.nontrivial + 1 }))
+      else if tag == "race" then
         ([s!"V {id} conc PROP op=0 C14 the race detector reports a data race: {(String.ofList (toStr (unhex b.trimAscii.toString))).take 300}"],
          fun s => { s with cases := s.cases + 1 })
       else if a.trimAscii.toString != b.trimAscii.toString then
